@@ -245,3 +245,19 @@ PROPS["C16"] = {
         {"engine": "proc", "needs_pike": True, "test": "TestC16ProbeReadded", "rapid": False, "probe": True, "env": {"VERIF_PORT_BASE": "28000", "VERIF_PORT_SPAN": "200"}, "quick": {"shards": 1, "timeout": 120}, "thorough": {"shards": 1, "timeout": 120}},
     ],
 }
+
+PROPS["C08"] = {
+    "level": "fault_enumeration",
+    "rule": ("TestC08 (real binary, badger store in a temp dir, LRU of 8 entries, 20-40 keys with lifetimes {uncacheable,2,3,4,6,8,30}s, bodies 10/200/3000 bytes, plain or gzip clients): op sequences of single GETs, concurrent bursts over many keys (evict/reload), "
+             "purges through the admin API, sleeps up to 3 s, and 1-2 kills: SIGKILL at an op boundary, SIGKILL 0-50 ms into a concurrent burst, SIGTERM (thorough); each followed by a restart on the same directory, then two more sweeps over all keys. "
+             "History oracle: a response that did not reach the upstream must be labelled hit, carry the serial (stored header) of a real fetch of the same key, an unaltered body, start less than T+1 s after the latest moment the entry can have been created "
+             "(min(fetching client's completion, kill of that instance)), an Age within the measured bounds (continuing across restarts), never for uncacheable keys, never from a fetch completed before a purge; pike must serve within 12 s after every restart. evaluations = client responses judged. "
+             "TestC08Sim (bubble, memory store honouring TTL on the virtual clock, LRU 8/16, 10-30 keys forced into 4 shards): evict/reload histories at exact expiry boundaries against the automaton (reload allowed only unchanged, within the original lifetime, Age continuing). "
+             "Non-trivial = a hit served from a fetch made by an earlier (killed) instance AND a refetch after expiry (TestC08) / a reload hit (TestC08Sim)."),
+    "assumptions": _PROC_ASSUME + _SIM_ASSUME[:1] + ["kill points are sampled in real time (op boundaries and random offsets into bursts), not enumerated at instruction granularity; an OS crash (loss of the page cache) is out of reach"],
+    "jobs": [
+        {"engine": "proc", "needs_pike": True, "test": "TestC08", "env": {"VERIF_PORT_BASE": "2000", "VERIF_PORT_SPAN": "400"},
+         "quick": {"shards": 16, "checks": 2, "timeout": 600, "shrinktime": "45s"}, "thorough": {"shards": 16, "checks": 40, "timeout": 3400, "shrinktime": "180s"}},
+        _sim("TestC08Sim", 600, 20000),
+    ],
+}
